@@ -43,7 +43,12 @@ def uni(rng):
     return rng.choice('日本語😀é')
 
 
-def value_text(rng): return ''.join(uni(rng) for _ in range(rng.choice([1, 1, 2, 4, 9])))
+ESCAPED_LOOKING = ['%41', 'next=%2Fhome', '50%25off', '%E3%81%82', 'a%2', '%%41', '100%', '%2B%2b', 'x%3Dy', '%00', '%zz%41']      # texts that read as escapes themselves
+
+
+def value_text(rng):
+    if rng.random() < 0.12: return rng.choice(ESCAPED_LOOKING)
+    return ''.join(uni(rng) for _ in range(rng.choice([1, 1, 2, 4, 9])))
 
 
 def enc_value(rng, v):
